@@ -31,5 +31,7 @@ def run(rep, tier):
     rep.rule("R-TIME-ORDER", "an ordering test between two time points (a time difference compared with a tolerance, not under abs) is never evaluated in the same form for both directions of integration")
     H.r_time_order(rep, hc)
     H.r_term(rep, hc)
+    rep.rule("R-DIR-FROM", "the integer conversion into Direction selects by sign (exact evaluation at the function's literals, their neighbours and the i32 range ends)")
+    H.r_dir_from(rep, f)
     rep.explanation = ("Structural + finite-domain: shapes, provenance of reported event states, complete truth table of the direction filter, "
                        "chronological ordering. Not decided: |g(t_e,y_e)| small and t_e inside the bracket (Brent's invariants over run-time floats).")
